@@ -49,8 +49,14 @@ func bucket(n int) string {
 		return "n=9..10"
 	case n <= 12:
 		return "n=11..12"
+	case n <= 16:
+		return "n=13..16"
+	case n <= 24:
+		return "n=17..24"
+	case n <= 44:
+		return "n=25..44"
 	}
-	return "n>12"
+	return "n>=45"
 }
 
 // relabelled copy of g under p as library graphs, built from the adjacency matrix
@@ -732,8 +738,12 @@ func execRefine(fam, g6 string, toks []string) hx.Result {
 // more leaves than this are oracle-only.
 const modelLeafBudget = 2000
 
-func modeFor(g *cx.G) string {
-	if _, _, ok := cx.RefCanon(g, nil, modelLeafBudget); ok {
+func modeFor(g *cx.G) string { return modeForB(g, modelLeafBudget) }
+
+// modeForB: "m" when the unpruned tree has at most budget leaves (the generator is one process:
+// the budget also bounds the time spent here)
+func modeForB(g *cx.G, budget int) string {
+	if _, _, ok := cx.RefCanon(g, nil, budget); ok {
 		return "m"
 	}
 	return "o"
@@ -862,6 +872,108 @@ func gen(g *hx.Gen) {
 			emit("union", u.Relabel(g.Rng.Perm(u.N)), randTok())
 		}
 	}
+	emitB := func(fam string, gr *cx.G, toks string, budget int) {
+		g.Emit(modeForB(gr, budget) + ":" + fam + ";" + gr.Graph6() + ";" + toks)
+	}
+	fewTok := func() string { return fmt.Sprintf("rand:%d:%d", g.Rng.U64()>>1, g.Pick(12, 30)) }
+	// sizes: random graphs at EVERY n from 13 to 70 and three densities (they refine to a discrete
+	// partition almost at once, so they are cheap), with extra graphs around the block boundaries
+	// of the merge sort of the refinement (insertion-sort blocks of 20: cells of 19..23, 39..43,
+	// 59..63 vertices); the first refinement sorts the single cell of n vertices by degree
+	for n := 13; n <= 70; n++ {
+		reps := 1
+		if r := n % 20; r >= 19 || r <= 3 {
+			reps = g.Pick(3, 6)
+		}
+		for rep := 0; rep < reps; rep++ {
+			for _, num := range []int{1, 3, 5} {
+				gr := cx.RandomGnp(g.Rng, n, num, 10)
+				emitB("size", gr, fewTok(), 60)
+				emitRefine(g, "size", gr)
+			}
+		}
+	}
+	// one big cell: a regular part of s vertices (every s in 18..45: random regular or circulant)
+	// joined to one to three distinguishing vertices with random neighbourhoods in the part; as
+	// it is, complemented, and together with a disjoint copy of the part
+	for s0 := 18; s0 <= 45; s0++ {
+		for rep := 0; rep < g.Pick(2, 5); rep++ {
+			var part *cx.G
+			if g.Rng.Intn(3) == 0 {
+				var d []int
+				for b := 1; b <= s0/2; b++ {
+					if g.Rng.Intn(4) == 0 {
+						d = append(d, b)
+					}
+				}
+				if len(d) == 0 {
+					d = []int{1}
+				}
+				part = cx.Circulant(s0, d...)
+			} else {
+				part = cx.RandomRegularSwitch(g.Rng, s0, 3+g.Rng.Intn(4))
+			}
+			k := 1 + g.Rng.Intn(3)
+			base := part
+			if g.Rng.Intn(4) == 0 && 2*s0+k <= 62 {
+				base = cx.Union(part, part)
+			}
+			gr := cx.New(base.N + k)
+			for i := 0; i < base.N; i++ {
+				for j := 0; j < i; j++ {
+					if base.Adj[i][j] {
+						gr.Add(i, j)
+					}
+				}
+			}
+			for x := 0; x < k; x++ {
+				for i := 0; i < s0; i++ {
+					if g.Rng.Intn(3) == 0 {
+						gr.Add(base.N+x, i)
+					}
+				}
+				if x > 0 && g.Rng.Bool() {
+					gr.Add(base.N+x, base.N+x-1)
+				}
+			}
+			if g.Rng.Intn(3) == 0 {
+				gr = gr.Complement()
+			}
+			gr = gr.Relabel(g.Rng.Perm(gr.N))
+			emitB("bigcell", gr, fewTok(), 60)
+			emitRefine(g, "bigcell", gr)
+		}
+	}
+	// volume on hard small graphs: random d-regular graphs (d = 3..6, n = 10..16; the refinement at
+	// the root is trivial, so the search tree, the pruning and deage are exercised), random
+	// circulants and their perturbations by one switch
+	volTok := func() string { return fmt.Sprintf("rand:%d:%d", g.Rng.U64()>>1, g.Pick(40, 60)) }
+	for i := 0; i < g.Pick(6000, 60000); i++ {
+		n := g.Rng.Range(10, 16)
+		d := g.Rng.Range(3, 6)
+		if i%3 == 0 {
+			d = 4 + 2*g.Rng.Intn(2)
+		}
+		emitB("regular", cx.RandomRegularSwitch(g.Rng, n, d), volTok(), 150)
+	}
+	for i := 0; i < g.Pick(400, 3000); i++ {
+		n := g.Rng.Range(10, 16)
+		var d []int
+		for b := 1; b <= n/2; b++ {
+			if g.Rng.Intn(3) == 0 {
+				d = append(d, b)
+			}
+		}
+		if len(d) == 0 {
+			d = []int{1, 2}
+		}
+		gr := cx.Circulant(n, d...)
+		if i%2 == 1 {
+			gr = cx.Perturb(g.Rng, gr, 2)
+		}
+		emitB("circulant", gr.Relabel(g.Rng.Perm(n)), volTok(), 150)
+	}
+
 	if !g.Thorough() {
 		// one representative of every isomorphism class on 7 vertices x all 5040 relabellings
 		reps := cx.ClassReps(7)
